@@ -541,6 +541,7 @@ type FuncSpec struct {
 	HasMods  bool
 	Decr     *Clause
 	Loops    map[int]*LoopSpec
+	AllInv   []*Clause // invariants of every loop of the function ("invariant-all")
 	Pure     bool
 	Trusted  bool // contract assumed, body not verified (listed in evidence)
 	File     string
@@ -576,7 +577,7 @@ type Axiom struct {
 }
 
 var clauseKeywords = map[string]bool{"func": true, "pred": true, "returns": true, "requires": true, "ensures": true,
-	"invariant": true, "decreases": true, "modifies": true, "loop": true, "pure": true, "trusted": true, "end": true, "regexp": true, "ghost": true, "axiom": true, "functype": true}
+	"invariant": true, "decreases": true, "modifies": true, "loop": true, "pure": true, "trusted": true, "end": true, "regexp": true, "ghost": true, "axiom": true, "functype": true, "invariant-all": true}
 
 // collectContractLines extracts the "//@" lines of a file, joining continuation lines.
 func collectContractLines(f *ast.File) []string {
@@ -771,6 +772,13 @@ func parsePkgSpec(pkgName string, files []*ast.File, fileNames []string) (*PkgSp
 						cur.Modifies = append(cur.Modifies, m)
 					}
 				}
+			case kw == "invariant-all":
+				label, tags, es := parseLabelTags(rest)
+				e, err := parseCExpr(es)
+				if err != nil {
+					return nil, fmt.Errorf("%s: %s invariant-all: %v", fileNames[fi], cur.Key, err)
+				}
+				cur.AllInv = append(cur.AllInv, &Clause{Kind: "invariant", Label: label, Tags: tags, Expr: e, Src: es})
 			case kw == "requires" || kw == "ensures" || kw == "invariant":
 				label, tags, es := parseLabelTags(rest)
 				e, err := parseCExpr(es)
